@@ -305,10 +305,70 @@ def node_histories(ctx, res):
     chain.unpatch()
 
 
+def two_stores(ctx, res):
+    """two stores alive in one process (two nodes, or a copy being made): writes interleaved, each flushed in turn, both
+    reopened — each returns exactly what was written to it (monitors only)"""
+    rng = ctx.rng
+    for si in range(ctx.scale(2, 6)):
+        chain.patch(horizon=-1)
+        keys = chain.Keys(rng, 4)
+        tree = chain.Tree(rng, keys)
+        g = tree.blocks[0].hash()
+        branches = []
+        for _ in range(2):
+            h, br = g, []
+            for _ in range(rng.randrange(2, 5)):
+                b = tree.extend(h, n_tx=rng.choice([0, 1]))
+                br.append(b)
+                h = b.hash()
+            branches.append(br)
+        paths = [os.path.join(os.getcwd(), "c08_two_%d_%d.db" % (si, k)) for k in (0, 1)]
+        for p_ in paths:
+            if os.path.exists(p_):
+                os.remove(p_)
+        stores = [blockstore.BlockStore(p_) for p_ in paths]
+        todo = [list(br) for br in branches]
+        while todo[0] or todo[1]:
+            k = rng.randrange(0, 2)
+            if not todo[k]:
+                k = 1 - k
+            stores[k].add_block_to_buffer(todo[k].pop(0))
+            flushes = [rng.randrange(0, 2)] if rng.random() < 0.25 else []
+            if not (todo[0] or todo[1]):
+                flushes += [0, 1] if rng.random() < 0.5 else [1, 0]
+            for f_ in flushes:
+                try:
+                    stores[f_].flush_blocks_to_disk()
+                except Exception as e:
+                    res.violations.append({"kind": "two stores in one process, writes interleaved: flushing store %d raised %r"
+                                                   % (f_, e), "scenario": si,
+                                           "written": [b.serialize().hex() for b in branches[f_]]})
+        for st in stores:
+            st.close()
+        for k in (0, 1):
+            st = blockstore.BlockStore(paths[k])
+            got = {b.hash(): b for b in st.read_blocks_from_disk()}
+            st.close()
+            os.remove(paths[k])
+            want = {b.hash(): b for b in branches[k]}
+            want[g] = tree.blocks[0]
+            res.case(("two-stores", si, k, tuple(sorted(want))), nontrivial=True)
+            if set(got) != set(want):
+                res.violations.append({"kind": "two stores in one process, writes interleaved: store %d returns %d block(s) that were "
+                                               "never written to it and lacks %d that were written and flushed"
+                                               % (k, len(set(got) - set(want)), len(set(want) - set(got))), "scenario": si,
+                                       "written": [b.serialize().hex() for b in branches[k]]})
+            elif any(got[i].serialize() != want[i].serialize() for i in want):
+                res.violations.append({"kind": "two stores in one process: a block read back is not byte-identical", "scenario": si})
+        res.count("two_store_histories")
+    chain.unpatch()
+
+
 def run(ctx):
     res = kit.Result()
     rng = ctx.rng
     arbitrary_blocks(ctx, res)
+    two_stores(ctx, res)
     wide_store(ctx, res)
     node_histories(ctx, res)
     n_scen = ctx.scale(8, 40)
